@@ -16,9 +16,10 @@ sys.path.insert(0, os.path.join(ROOT, "checks"))
 def load_checks():
     """Every checks/cNN.py that defines MANIFEST = dict(spec=, text=, note=, technique=, design=[, category=])."""
     out = {}
+    accepted = set(open(os.path.join(ROOT, "checks", "ACCEPTED")).read().split())
     for f in sorted(glob.glob(os.path.join(ROOT, "checks", "c[0-9]*.py"))):
         mod = importlib.import_module(os.path.basename(f)[:-3])
-        if getattr(mod, "MANIFEST", None):
+        if getattr(mod, "MANIFEST", None) and mod.PID in accepted:
             out[mod.PID] = mod.MANIFEST
     return out
 
